@@ -84,4 +84,17 @@ def addIli (db : Db) (rows : List IliRow) : Db :=
       let row : RIli := { rowid := nextId (db.ilis.map (·.rowid)), id := r.ili, status := st, definition := r.definition, md := none }
       { db with ilis := db.ilis ++ [row] }) db1
 
+/-- `_ili.load`: header-driven TSV; `dict(zip(fields, values))` truncates to the shorter list -/
+def splitTab (s : String) : List String := s.splitOn "\t"
+
+def parseIli (lines : List String) : List IliRow :=
+  match lines with
+  | [] => []
+  | header :: rest =>
+    let fields := (splitTab header).map String.toLower
+    rest.map (fun line =>
+      let kv := fields.zip (splitTab line)
+      let get (k : String) : Option String := (kv.find? (fun e => e.1 == k)).map (·.2)
+      { ili := (get "ili").getD "", status := get "status", definition := get "definition" })
+
 end WnVerif.Db
